@@ -130,6 +130,7 @@ class Recorder:
         self.browsers: List[Any] = []
         self.inj_count = 0
         self.dup_log: List[dict] = []
+        self.sent_count = 0
         self.recv_counts: Dict[int, int] = {}
         self.gone_infos: Dict[int, Any] = {}
 
@@ -182,6 +183,7 @@ class Recorder:
                 tag=e.get('tag'), **p)
 
     def _on_send(self, e: dict, data: bytes) -> None:
+        self.sent_count += 1
         mc = e['dst'] in (simnet.MDNS_ADDR, simnet.MDNS_ADDR6)
         if mc:
             # one multicast goes out once per respond socket (IPv4 and IPv6 group on a dual-stack instance): the copies of one
@@ -331,7 +333,7 @@ class Recorder:
                 self.ev('api_ret', op='close', ok=False, exc=type(ex).__name__)
 
     # ------------------------------------------------------------ duplication (C16), browser, listener
-    def dup_factor(self, data: bytes) -> int:
+    def dup_factor(self, data: bytes, port: int = 5353) -> int:
         """2 when this injected datagram is to be delivered twice back to back (scenario key 'dup': 'all' or an index)."""
         self.inj_count += 1
         mode = self.sc.get('dup')
@@ -345,7 +347,7 @@ class Recorder:
                 qu = tc = probe = False
             if qu and mode == 'allnq':
                 return 1             # every datagram except queries with a QU question (whose copies are answered, finding D9)
-            self.dup_log.append({'t': self.net.now(), 'qu': qu, 'tc': tc, 'probe': probe, 'n': self.inj_count})
+            self.dup_log.append({'t': self.net.now(), 'qu': qu, 'tc': tc, 'probe': probe, 'legacy': port != 5353, 'n': self.inj_count})
             return 2
         return 1
 
@@ -361,9 +363,12 @@ class Recorder:
         entry = self.dup_log[-1] if self.dup_log else None
         sock = kw.get('sock', 0)
         mark = self.recv_counts.get(sock, 0)            # the first copy has been delivered already
+        sent = self.sent_count
 
         def later() -> None:
-            if self.recv_counts.get(sock, 0) == mark:
+            # (immediate succession: nothing else was delivered to the socket in between, and no timer of the instance has sent
+            # anything meanwhile -- a truncated query whose hold ran out between the two copies is a new query, not a copy)
+            if self.recv_counts.get(sock, 0) == mark and (self.sent_count == sent or not entry or not entry.get('tc')):
                 if entry is not None:
                     entry['t'] = self.net.now()
                 self.host.inject(data, **kw)
@@ -485,7 +490,7 @@ class Recorder:
                 src = st.get('src', '10.0.0.9')
                 if self.sc.get('v6src'):
                     src = V6SRC.get(src, src)
-                for k in range(st.get('copies', 1) * self.dup_factor(data)):
+                for k in range(st.get('copies', 1) * self.dup_factor(data, st.get('port', 5353))):
                     self.inject_copy(k, data, src=src, port=st.get('port', 5353), sock=st.get('sock', 0), tag=st.get('tag'))
             elif op == 'resp':
                 data = self.build_response(st)
